@@ -103,6 +103,9 @@ func main() {
 	if c.Prop == "child:condcycles" {
 		os.Exit(condCycleChild())
 	}
+	if c.Prop == "child:subjectdag" {
+		os.Exit(subjectDagChild())
+	}
 	if strings.HasPrefix(c.Prop, "finding:") {
 		os.Exit(runFinding(strings.TrimPrefix(c.Prop, "finding:")))
 	}
